@@ -51,10 +51,15 @@ type c16Case struct {
 	arg   bool
 	mode  string
 	viCnt int
+	reuse string // "" | "insert-at-start" | "delete-at-start": kill, yank, that edit, end-of-line, yank again
 }
 
 func (cs c16Case) String() string {
-	return fmt.Sprintf("buffer=%q cursor=%d mark=%d kills=%v arg2=%v mode=%s count=%d", cs.buf, cs.pos, cs.mark, cs.kills, cs.arg, cs.mode, cs.viCnt)
+	s := fmt.Sprintf("buffer=%q cursor=%d mark=%d kills=%v arg2=%v mode=%s count=%d", cs.buf, cs.pos, cs.mark, cs.kills, cs.arg, cs.mode, cs.viCnt)
+	if cs.reuse != "" {
+		s += " then yank, " + cs.reuse + ", end-of-line, yank again"
+	}
+	return s
 }
 
 func c16Job(id int, cs c16Case, rc string, keys map[string]string) harness.Job {
@@ -83,6 +88,12 @@ func c16Job(id int, cs c16Case, rc string, keys map[string]string) harness.Job {
 			ans = append(ans, Key(keys[k]))
 		}
 		ans = append(ans, Key(keys["yank"]))
+		switch cs.reuse {
+		case "insert-at-start":
+			ans = append(ans, Key("\x01"), Key("X"), Key("\x05"), Key(keys["yank"]))
+		case "delete-at-start":
+			ans = append(ans, Key("\x01"), Key("\x04"), Key("\x05"), Key(keys["yank"]))
+		}
 	}
 	return harness.Job{ID: id, Cfg: cfg, Calls: [][]harness.Answer{ans}, Want: harness.Want{Obs: 2, From: from}}
 }
@@ -112,6 +123,25 @@ func c16Verdict(cs c16Case, t *harness.Trace) (fp, what string, nontrivial bool)
 		if w.Obs != nil && w.Obs.Kind == "main" {
 			obs = append(obs, w.Obs)
 		}
+	}
+	if cs.reuse != "" {
+		// obs: before kill, after kill, after yank, after C-a, after the edit, after C-e, after the second yank
+		if len(obs) != 7 {
+			return "", fmt.Sprintf("not judged: %d observations, expected 7", len(obs)), false
+		}
+		if obs[0].Line != cs.buf || obs[1].Line == obs[0].Line {
+			return "", "", false
+		}
+		K := obs[1].Kill
+		for i := 2; i < 7; i++ {
+			if obs[i].Kill != K {
+				return "kill-buffer-changed-by-a-later-edit", fmt.Sprintf("%s: the kill removed %q; after step %d of (yank, C-a, edit, C-e, yank) the kill buffer reads %q (buffer %q)", cs, K, i-1, obs[i].Kill, obs[i].Line), true
+			}
+		}
+		if !insertedAt(obs[5].Line, K, obs[6].Line) {
+			return "second-yank-does-not-insert-the-kill", fmt.Sprintf("%s: the kill removed %q; the second yank changed %q into %q", cs, K, obs[5].Line, obs[6].Line), true
+		}
+		return "", "", true
 	}
 	steps := len(cs.kills)
 	if cs.mode == "vi" {
@@ -184,9 +214,10 @@ func init() {
 			Arg   bool
 			Mode  string
 			Cnt   int
+			Reuse string
 		}
 		jsonUnmarshal(w.Input, &in)
-		cs := c16Case{in.Buf, in.Pos, in.Mark, in.Kills, in.Arg, in.Mode, in.Cnt}
+		cs := c16Case{in.Buf, in.Pos, in.Mark, in.Kills, in.Arg, in.Mode, in.Cnt, in.Reuse}
 		t := c.Pool.RunOne(w.Job)
 		fp, what, _ := c16Verdict(cs, t)
 		return what + "\n" + jsonString(LastCall(t).Waits), fp
@@ -200,7 +231,7 @@ func runC16(c *Ctx) {
 		c.Deadline = c.Start.Add(40 * time.Minute)
 	}
 	bufs := c02Strings(c16Alphabet, L)
-	c.Rule = fmt.Sprintf("all buffers of length <= %d over %q x every cursor position x %d kill commands (by name) x numeric argument {none, 2}; kill-region with the mark at every other position; every ordered pair of kill commands on buffers of length <= %d; vi x with count {1,2,3} then P. State planted by a registered command (Line().Set/Cursor().Set), cross-checked against typing on short cases. non-trivial = distinct cases in which a kill removed something", L, c16Alphabet, len(c16Kills), L-1)
+	c.Rule = fmt.Sprintf("all buffers of length <= %d over %q x every cursor position x %d kill commands (by name) x numeric argument {none, 2}; kill-region with the mark at every other position; every ordered pair of kill commands on buffers of length <= %d; vi x with count {1,2,3} then P; every single kill followed by yank, an edit at the start of the line (insert / delete-char), end-of-line and a second yank (the kill buffer must not change, the second yank inserts it again). State planted by a registered command (Line().Set/Cursor().Set), cross-checked against typing on short cases. non-trivial = distinct cases in which a kill removed something", L, c16Alphabet, len(c16Kills), L-1)
 	c.Bounds = map[string]any{"max_len": L, "alphabet": c16Alphabet, "kill_commands": c16Kills, "pairs_up_to_len": L - 1}
 	c.Assumptions = []string{"delete-word is not a kill (documented)", "in vi mode only delete-character + put-before must restore (statement); registers containing a newline are put line-wise as documented and are not judged; when x removes the last character of a line the cursor is clamped and the restore clause does not apply"}
 
@@ -213,6 +244,11 @@ func runC16(c *Ctx) {
 			for _, k := range c16Kills {
 				for _, arg := range []bool{false, true} {
 					cases = append(cases, c16Case{buf: b, pos: pos, mark: -1, kills: []string{k}, arg: arg, mode: "emacs"})
+				}
+			}
+			for _, k := range c16Kills {
+				for _, reuse := range []string{"insert-at-start", "delete-at-start"} {
+					cases = append(cases, c16Case{buf: b, pos: pos, mark: -1, kills: []string{k}, mode: "emacs", reuse: reuse})
 				}
 			}
 			for mark := 0; mark <= n; mark++ {
@@ -283,7 +319,7 @@ func runC16(c *Ctx) {
 		}
 		jj := *j
 		c.Violate(Witness{Fingerprint: fp, What: what, Engine: "session", Job: &jj,
-			Input: jsonRaw(map[string]any{"Buf": cs.buf, "Pos": cs.pos, "Mark": cs.mark, "Kills": cs.kills, "Arg": cs.arg, "Mode": cs.mode, "Cnt": cs.viCnt})}, func() string {
+			Input: jsonRaw(map[string]any{"Buf": cs.buf, "Pos": cs.pos, "Mark": cs.mark, "Kills": cs.kills, "Arg": cs.arg, "Mode": cs.mode, "Cnt": cs.viCnt, "Reuse": cs.reuse})}, func() string {
 			f, _, _ := c16Verdict(cs, c.Pool.RunOne(&jj))
 			return f
 		})
